@@ -39,7 +39,7 @@ Fixpoint wf_val (fuel : nat) (sc : schema) (k : fkind) (v : value) : bool :=
     | KNat opt, VNone => opt
     | KNat _, VNat n => n <? two64
     | KFixed _ opt, VNone => opt
-    | KFixed w _, VNat n => n <? 256 ^ N.of_nat w
+    | KFixed w _, VNat n => (n <? 256 ^ N.of_nat w) && (0 <? w)%nat && (w <=? 8)%nat
     | KTime opt, VNone => opt
     | KTime _, VNat d => (d <? two63) && (d mod 1000000 =? 0)
     | KBin, VNone | KWire, VNone | KName, VNone | KStruct _, VNone | KSig _ _, VNone | KIntName _, VNone => true
